@@ -1,0 +1,59 @@
+//go:build verif
+
+package multiplexing
+
+// Contracts for the stream multiplexer (property C24). Comment-only file:
+// compiled only under the "verif" build tag, contains no code. The "//@"
+// lines are read by /verif/govc.
+//
+// The receiving multiplexer tears the connection down when it sees a
+// zero-valued window increment, a data block of length zero or longer than
+// 65535 bytes or larger than the receive window it granted, a stream
+// identifier that does not increase, or a message for a stream it has closed.
+// The contracts below are the sender-side obligations that keep each of these
+// from being transmitted, as far as a single function can establish them.
+
+//@ private Multiplexer Stream
+
+// A window increment handed to the enqueue goroutine is never zero.
+//@ chaninv Multiplexer.enqueueWindowIncrement: [positive] v.amount > 0
+
+// Data blocks: the 16-bit length prefix holds the block length exactly.
+//@ func (*messageBuffer).encodeStreamDataMessage
+//@   requires b != nil
+//@   maypanic
+
+// Writing: every block is at most 65535 bytes and at most the send window, and
+// the window is reduced by exactly the block length (no wrap-around).
+//@ func (*Stream).Write
+//@   requires s != nil
+//@   at call encodeStreamDataMessage assert[block] len(arg2) == window && window <= 65535 && window <= len(data)
+//@   loop 1 invariant count >= 0
+
+// Reading: the window increment equals the number of bytes consumed and is
+// sent only when something was consumed.
+//@ func (*Stream).Read
+//@   requires s != nil
+
+// Opening: the identifier announced to the peer is the next unused outbound
+// identifier, which then moves forward by two (or to zero when exhausted) and
+// is never moved back, whatever the outcome of the open.
+//@ func (*Multiplexer).OpenStream
+//@   requires m != nil
+//@   at call encodeOpenMessage assert[ids] arg1 == old(m.nextOutboundStreamIdentifier) && arg1 != 0
+//@   ensures[ids] old(m.nextOutboundStreamIdentifier) != 0 ==> m.nextOutboundStreamIdentifier == 0 || m.nextOutboundStreamIdentifier == old(m.nextOutboundStreamIdentifier) + 2
+//@   ensures[ids] old(m.nextOutboundStreamIdentifier) == 0 ==> result1 != nil && m.nextOutboundStreamIdentifier == 0
+
+// The enqueue goroutine: when a close request for a stream is taken in, a
+// pending close-write for that stream is cancelled in the same step, so the
+// close-write cannot be transmitted after the close. (That no close-write
+// request arrives after the close request is the senders' business: they are
+// serialized by the stream's closeWriteOnce.) prev() is the state at the start
+// of the iteration.
+//@ func (*Multiplexer).enqueue
+//@   requires m != nil
+//@   loop 1 invariant[order] forall s in 0..18446744073709551616 :: has(closes, s) && !prev(has(closes, s)) ==> !has(writeCloses, s) && !has(windowIncrements, s)
+//@   loop 4 invariant[order] forall s in 0..18446744073709551616 :: has(closes, s) ==> pre(has(closes, s))
+//@   loop 2 modifies windowIncrements[*], writeBuffer.buffer.used, writeBuffer.buffer.storage[*], writeBuffer.varint64Buffer[*]
+//@   loop 3 modifies writeCloses[*], writeBuffer.buffer.used, writeBuffer.buffer.storage[*], writeBuffer.varint64Buffer[*]
+//@   loop 4 modifies closes[*], writeBuffer.buffer.used, writeBuffer.buffer.storage[*], writeBuffer.varint64Buffer[*]
